@@ -94,6 +94,13 @@ def _run_history(ctx, I, n_units, init, ops, lazy=False):
                 ref = ref[_sl(op)]
             elif kind == "reverse":
                 ref.reverse()
+            elif kind == "subedit":
+                # a slice is a NEW list: editing it leaves the list it was taken from alone, and the other way round
+                ref_child = ref[_sl(op)]
+                if op["who"] == "child":
+                    ref_child[op["i"]] = op["e"]
+                else:
+                    ref[op["j"]] = op["e"]
         except IndexError:
             ref_err = "IndexError"
         # implementation -------------------------------------------------------------------
@@ -116,6 +123,12 @@ def _run_history(ctx, I, n_units, init, ops, lazy=False):
                 prov = prov[_sl(op)]
             elif kind == "reverse":
                 prov.reverse()
+            elif kind == "subedit":
+                child = prov[_sl(op)]
+                if op["who"] == "child":
+                    child[op["i"]] = gen.build_expr(P, units, op["e"])
+                else:
+                    prov[op["j"]] = gen.build_expr(P, units, op["e"])
         except Exception as e:  # noqa
             impl_err = exc_name(e)
         # model ops (same effect expressed in the model's vocabulary)
@@ -134,12 +147,24 @@ def _run_history(ctx, I, n_units, init, ops, lazy=False):
             mops.append({"op": "select", "idx": list(range(*_sl(op).indices(op["_len"])))})
         elif kind == "reverse":
             mops.append({"op": "select", "idx": list(range(op["_len"] - 1, -1, -1))})
+        elif kind == "subedit" and op["who"] == "parent":
+            mops.append({"op": "set", "i": op["j"], "e": op["e"]})
         mops.append({"op": "table"})
         mops.append({"op": "simple"})
         # compare with the reference now
         if ref_err != impl_err:
             return dict(step=k, op=op, what="exception behaviour differs from list", impl=impl_err, spec=ref_err), mops
         stab = [[spec.expr_true(e, a) for e in ref] for a in asg]
+        if kind == "subedit" and ref_err is None:
+            try:
+                cu_ = list(child.units) if lazy else list(keys)
+                ctab = [[bool(x) for x in np.asarray(child.query(np.array(values_for(cu_, keys, a) if lazy else list(a), dtype=int))).tolist()] for a in asg]
+            except Exception as e:  # noqa
+                return dict(step=k, op=op, what="query of a slice raised", impl=exc_name(e) + ": " + repr(e), spec=len(ref_child)), mops
+            cstab = [[spec.expr_true(e, a) for e in ref_child] for a in asg]
+            if len(child) != len(ref_child) or ctab != cstab:
+                return dict(step=k, op=op, what="a slice taken before an edit of the %s differs from the list slice that underwent the same edits" % ("slice itself" if op["who"] == "child" else "container it was taken from (the slice shares storage)"),
+                            impl=dict(len=len(child), query=ctab), spec=dict(len=len(ref_child), table=cstab)), mops
         stage = "len"
         try:
             ln = len(prov)
@@ -228,6 +253,17 @@ def gen_history(rng, n_units, max_ops, lazy=False):
         e = rand_formula(rng, m, 3, 3)
         if grew:
             e = _mention(rng, e, m - 1)
+        if ln > 1 and rng.random() < 0.12:
+            # slice, then edit the slice or the container it came from with a formula NO WIDER than the stored ones (so that nothing is re-allocated)
+            sl = rand_slice(rng, ln) if rng.random() < 0.5 else slice(rng.randrange(0, ln - 1), None)
+            idx = list(range(*sl.indices(ln)))
+            if idx:
+                small = {"eq": [rng.randrange(m), rng.randrange(2)]}
+                if rng.random() < 0.5:
+                    ops.append({"op": "subedit", "who": "child", "a": sl.start, "b": sl.stop, "s": sl.step, "i": rng.randrange(-len(idx), len(idx)), "e": small, "_len": ln})
+                else:
+                    ops.append({"op": "subedit", "who": "parent", "a": sl.start, "b": sl.stop, "s": sl.step, "j": rng.choice(idx), "e": small, "_len": ln})
+                continue
         if r < 0.22 and ln > 0:
             ops.append({"op": "set", "i": rng.randrange(-ln, ln), "e": e})
         elif r < 0.40:
@@ -304,6 +340,14 @@ def shrink(ctx, I, n_units, init, ops, lazy=False):
                     ref = ref[_sl(op)]
                 elif k == "reverse":
                     ref.reverse()
+                elif k == "subedit":
+                    c_ = ref[_sl(op)]
+                    if op["who"] == "child":
+                        c_[op["i"]] = op["e"]
+                    else:
+                        if op["j"] not in list(range(*_sl(op).indices(len(ref)))):
+                            return None
+                        ref[op["j"]] = op["e"]
             except IndexError:
                 return None
             out.append(op)
